@@ -33,9 +33,9 @@ def bounded_c01(tier, seed):
                                               "pynguin.instrumentation.version.python3_12:Python312InstrumentationInstructionsGenerator"],
              scope="H-prog (see C03): returned value (structurally, NaN equal to NaN), exception type, stdout and final state of the "
                    "arguments of the uninstrumented call against the call of the module instrumented through the real import hook "
-                   "(dynamic seeding always on) under the metric sets {BRANCH}, {LINE}, {BRANCH, LINE}",
+                   "(dynamic seeding always on) under the metric sets {} (seeding only), {BRANCH}, {LINE}, {BRANCH, LINE}",
              bound="the listed functions and vectors")
-    return guarded(p, lambda part, t, s: run_hprog(part, t, s, judge_behaviour, ("B", "L", "BL")), tier, seed)
+    return guarded(p, lambda part, t, s: run_hprog(part, t, s, judge_behaviour, ("S", "B", "L", "BL")), tier, seed)
 
 
 _CHILD = r'''
